@@ -90,7 +90,7 @@ class PipeAnalysis:
                 if c == 1:
                     I.trace.decisions.append("T[aggregator raises ValueError]")
                     raise AbsRaise("ValueError", node, "aggregator")
-            return opaque(frozenset(["aggregated"]), axes=(Q,), layout=((0, lay[0][1], "aggregated"),) if lay else ())
+            return opaque(frozenset(["aggregated"]), axes=(Q,), layout=((0, lay[0][1], "aggregated"),) if lay else (), dtype=m.dtype if isinstance(m, TV) else "M")
         return None
 
     @staticmethod
